@@ -510,6 +510,20 @@ pub fn world(hk: Hk, issuer_alg: Alg, l: &mut Local) -> Option<World> {
         }
     }
     kbs.extend(forged_kbs(&a, hk));
+    // for N (no confirmed key): KB-JWTs that would be exactly right for N's own lists if N confirmed holder key #1 —
+    // signed by that key, which N's claims carry under sub_jwk / jwk — must be rejected: nothing confirms a key
+    if let Some(h1) = hk.enc(0) {
+        let alg = holder_alg(hk);
+        for (big, list) in [(false, &n.s_small), (true, &n.s_big)] {
+            for i in 0..2 {
+                let hash = codec::digest(&Parts { jwt: n.cred.parts.jwt.clone(), disclosures: list.clone(), kb: None }.sd_hash_input());
+                let hdr = json!({"alg": hk.alg().unwrap_or("ES256"), "typ": "kb+jwt"});
+                let pl = json!({"nonce": NONCES[i], "aud": AUDS[i], "iat": tokens::now(), "sd_hash": hash});
+                let tok = tokens::sign_json(&hdr, &pl, alg, &h1);
+                kbs.push(KbItem { label: format!("forged:right_for_N_if_sub_jwk_confirmed:{}:{i}", if big { "S'" } else { "S" }), token: Some(tok), signer: "h1".into(), alg_family_ok: true, typ: hdr.get("typ").cloned(), nonce: pl.get("nonce").cloned(), aud: pl.get("aud").cloned(), sd_hash: pl.get("sd_hash").cloned(), holder_made_for: None });
+            }
+        }
+    }
     Some(World { sessions: vec![a, b, c, n], kbs, hk })
 }
 
